@@ -39,6 +39,8 @@ package channelmonitor
 //@       all(monitoredChannel.closeChannelAndShutdown, $1 == ret_last(monitoredChannel.doRestartChannel, 0))
 //@       -- when restarting fails (bound exceeded, or reconnect / restart message failing persistently) the channel is closed with that error; never otherwise
 //@   ensures [done-means-idle] calls(monitoredChannel.doRestartChannel) >= 1 && ret_last(monitoredChannel.doRestartChannel, 0) == nil ==> !holds(mc.busyToken)
+//@   ensures [completion-announced] calls(dyn.func) == (calls(monitoredChannel.doRestartChannel) >= 1 && ret_last(monitoredChannel.doRestartChannel, 0) == nil && (*mc.cfg).OnRestartComplete != nil ? 1 : 0) &&
+//@       all(dyn.func, $1 == mc.chid) -- the configured OnRestartComplete callback hears of every restart that went through, once, and of nothing else
 //@       -- returning after a successful attempt with nothing queued leaves no restart in flight
 
 //@ func (*channelmonitor.monitoredChannel).doRestartChannel {C14}
@@ -60,6 +62,9 @@ package channelmonitor
 //@       all(monitorAPI.ConnectTo, $2 == mc.chid.OtherParty(ret(monitorAPI.PeerID, 0))) && calls(monitorAPI.RestartDataTransferChannel) <= 1
 //@   ensures [connect-failure] calls(monitorAPI.ConnectTo) == 1 && ret(monitorAPI.ConnectTo, 0) != nil ==> result != nil && never(monitorAPI.RestartDataTransferChannel)
 //@   ensures [restart-failure] calls(monitorAPI.RestartDataTransferChannel) == 1 && ret(monitorAPI.RestartDataTransferChannel, 0) != nil ==> result != nil
+//@   ensures [backs-off-after-sending] calls(time.After) == (calls(monitorAPI.RestartDataTransferChannel) == 1 && ret(monitorAPI.RestartDataTransferChannel, 0) == nil && (*mc.cfg).RestartBackoff > 0 ? 1 : 0) &&
+//@       all(time.After, $0 == (*mc.cfg).RestartBackoff) -- a configured back-off is waited out after every restart message that went out (and only then), before the next attempt may start
+//@   ensures [sent] calls(monitorAPI.RestartDataTransferChannel) == 1 && ret(monitorAPI.RestartDataTransferChannel, 0) == nil ==> result == nil
 
 //@ func (*channelmonitor.monitoredChannel).resetConsecutiveRestarts {C14}
 //@   acquires {C20} monitoredChannel.restartLk
@@ -85,7 +90,7 @@ package channelmonitor
 //@   pure
 //@   ensures [def] result == (m.cfg != nil)
 //@ func (*channelmonitor.Monitor).addChannel {C14,C20}
-//@   acquires {C20} Monitor.lk
+//@   acquires {C20} Monitor.lk, channelmonitor.monitoredChannel.shutdownLk
 //@   modifies m.channels
 //@   ensures [disabled] m.cfg == nil ==> result == nil && untouched
 //@   guarantee [one-monitor-per-channel] (forall k datatransfer.ChannelID :: k != chid ==> has(self.channels, k) == old(has(self.channels, k)) &&
@@ -95,11 +100,11 @@ package channelmonitor
 //@   ensures [refuses-duplicates] m.cfg != nil ==> calls(newMonitoredChannel) <= 1 && (result == nil) == (calls(newMonitoredChannel) == 0) &&
 //@       (calls(newMonitoredChannel) == 1 ==> result == ret(newMonitoredChannel, 0)) && all(newMonitoredChannel, $2 == chid && $1 == m.mgr && $3 == m.cfg)
 //@ func (*channelmonitor.Monitor).AddPushChannel {C14}
-//@   acquires {C20} channelmonitor.Monitor.lk
+//@   acquires {C20} channelmonitor.Monitor.lk, channelmonitor.monitoredChannel.shutdownLk
 //@   modifies m.channels
 //@   ensures [forward] seq(Monitor.addChannel) && called(Monitor.addChannel, _, chid, true) && result == ret(Monitor.addChannel, 0)
 //@ func (*channelmonitor.Monitor).AddPullChannel {C14}
-//@   acquires {C20} channelmonitor.Monitor.lk
+//@   acquires {C20} channelmonitor.Monitor.lk, channelmonitor.monitoredChannel.shutdownLk
 //@   modifies m.channels
 //@   ensures [forward] seq(Monitor.addChannel) && called(Monitor.addChannel, _, chid, false) && result == ret(Monitor.addChannel, 0)
 //@ func (*channelmonitor.Monitor).onMonitoredChannelShutdown {C14,C20}
@@ -112,8 +117,14 @@ package channelmonitor
 //@   ensures [disabled] (*mc.cfg).CompleteTimeout == 0 ==> untouched
 //@   ensures [closes-only-on-timer] calls(monitoredChannel.closeChannelAndShutdown) <= 1
 //@ func channelmonitor.newMonitoredChannel {C14}
-//@   opaque
-//@   ensures [constructed] result != nil -- assumed (the constructor wires the debounce dependency and is not under contract)
+//@   acquires {C20} channelmonitor.monitoredChannel.shutdownLk
+//@   requires cfg != nil && mgr != nil
+//@   ensures [constructed] result != nil && (*result).chid == chid && (*result).cfg == cfg && (*result).mgr == mgr && (*result).restartChannelDebounced != nil
+//@   ensures [monitoring-started] calls(monitoredChannel.start) == 1 && all(monitoredChannel.start, $0 == result) -- a monitored channel that is never started watches nothing
+//@ func channelmonitor.newMonitoredChannel$1$1 {C14}
+//@   acquires {C20} channelmonitor.Monitor.lk, channelmonitor.monitoredChannel.shutdownLk, graphsync.Transport.dtChannelsLk, graphsync.dtChannel.lk, graphsync.dtChannel.optionsLk, monitoredChannel.restartLk, registry.Registry.registryLk, tracing.SpansIndex.spansLk, transportoptions.TransportOptions.optionsLk
+//@   requires *mpc != nil && !holds((*mpc).busyToken) -- the debouncer runs it on a timer goroutine of its own, which performs no restart attempt of its own (dependency: bep/debounce)
+//@   ensures [debounced-call-restarts] calls(monitoredChannel.restartChannel) == 1 && all(monitoredChannel.restartChannel, $0 == *mpc) -- what the debouncer finally runs is one restart of this channel
 
 // lock effects of this package's interfaces (C20)
 //@ extern func (channelmonitor.monitorAPI).RestartDataTransferChannel
@@ -127,6 +138,7 @@ package channelmonitor
 //@   acquires {C20} channelmonitor.Monitor.lk, channelmonitor.monitoredChannel.shutdownLk
 //@   loop 0 invariant [all-channels] true
 //@ func (*channelmonitor.monitoredChannel).isRestarting {C14,C20}
+//@   ensures [reports-in-flight] result == !mc.restartedAt.IsZero()
 //@   acquires {C20} channelmonitor.monitoredChannel.restartLk
 //@ func (*channelmonitor.monitoredChannel).start {C14,C20}
 //@   establishes shutdownLk -- called by the constructor before the object is shared ("prevent shutdown until after startup")
@@ -163,8 +175,12 @@ package channelmonitor
 //@   requires *mc != nil && *timer != nil
 //@   ensures [closes-only-on-timer] calls(monitoredChannel.closeChannelAndShutdown) <= 1
 
+//@ func channelmonitor.checkConfig {C14}
+//@   refuses cfg != nil && ((*cfg).AcceptTimeout < 0 || (*cfg).MaxConsecutiveRestarts == 0 || (*cfg).CompleteTimeout < 0)
+//@       -- an invalid configuration is refused by a deliberate panic; nothing else makes it panic
+//@   ensures [returns-only-if-valid] cfg == nil || ((*cfg).AcceptTimeout >= 0 && (*cfg).MaxConsecutiveRestarts != 0 && (*cfg).CompleteTimeout >= 0)
+//@   ensures [checks-only] untouched
 //@ func channelmonitor.NewMonitor {C14,C20}
 //@   constructor
 //@   requires mgr != nil
-//@   requires [valid-config] cfg == nil || ((*cfg).AcceptTimeout >= 0 && (*cfg).MaxConsecutiveRestarts != 0 && (*cfg).CompleteTimeout >= 0)
-//@       -- an invalid configuration is refused by a deliberate panic at construction (checkConfig)
+//@   ensures [config-checked-first] first(checkConfig, $0 == cfg) -- a monitor is only ever built over a configuration that passed the check (the restart bound is > 0, the timeouts are not negative)
